@@ -211,6 +211,24 @@ def check_myokit_export(ctx: Ctx, rule: str):
             kinds.add("other:" + _av.show(src)[:40])
     others = sorted(k for k in kinds if k.startswith("other:"))
     ctx.check({"derivative", "intermediate"} <= kinds and not others, rule, h.key("converted"), "derivative and intermediate expressions are renamed with the full map", f"gotran_to_myokit: converted expressions are {sorted(kinds)} (each state's variable gets its derivative's expression, each intermediate its own)", h.where())
+    # units: every declared variable gets its atom's own unit text (** written as ^), and no unit when it has none
+    units = [v for v in log if v[0] == "mcall" and v[2] == "set_unit" and len(v[3]) == 1 and _av.find_all(v[3][0], "bv")]
+    ukey = h.key("units")
+    if not units:
+        ctx.undecided(rule, ukey, "the set_unit calls of gotran_to_myokit are not found in what it does", h.where())
+    else:
+        bad_u = []
+        for u_ in units:
+            a = u_[3][0]
+            srcs = [x for x in _av.find_all(a, "attr") if x[2] == "unit_str"]
+            if not srcs:
+                bad_u.append(a)
+                continue
+            U = srcs[0]
+            want_u = _av.mk_if(("cmp", "is", U, _av.NONE), _av.NONE, ("mcall", U, "replace", (_av.C("**"), _av.C("^")), ()))
+            if a != want_u:
+                bad_u.append(a)
+        ctx.check(not bad_u, rule, ukey, "unit = the atom's unit text with ** written as ^, None when the atom has none", f"gotran_to_myokit sets a variable's unit to `{_av.show(bad_u[0])[:100] if bad_u else ''}`, not to the atom's own unit text (None when it has none): units are not preserved by the conversion back to Myokit", h.where())
     pvals = any(s_[3][0][0] == "attr" and s_[3][0][2] == "value" and s_[3][0][1][0] == "bv" and ("add_variable(" + _av.show(s_[3][0][1]) + ".name)") in _av.show(s_[1]) for s_ in sets)
     proms = [v for v in log if v[0] == "mcall" and v[2] == "promote" and len(v[3]) == 1]
     sv = any(p_[3][0] == ("attr", ("attr", p_[1][2][1][1], "state"), "value") for p_ in proms if p_[1][0] == "sub" and p_[1][2][0] == "attr" and p_[1][2][1][0] == "attr" and p_[1][2][1][2] == "state")
